@@ -29,19 +29,67 @@ func init() {
 		}
 		n := 0
 		defs := localDefs(info, fd.Body)
+		var result *ast.Ident
+		if r := fd.Type.Results; r != nil && len(r.List) == 1 && len(r.List[0].Names) == 1 {
+			result = r.List[0].Names[0]
+		}
+		// isParam: the parameter (never reassigned), a float→same-float conversion of it, or a
+		// local whose only definition is one of these
+		var isParam func(e ast.Expr, depth int) bool
+		isParam = func(e ast.Expr, depth int) bool {
+			if depth > 4 || len(defs[param]) != 0 {
+				return false
+			}
+			e = unparen(e)
+			if call, ok := e.(*ast.CallExpr); ok && len(call.Args) == 1 {
+				if tv, isT := info.Types[call.Fun]; isT && tv.IsType() && types.Identical(tv.Type, info.TypeOf(call.Args[0])) {
+					return isParam(call.Args[0], depth+1)
+				}
+				return false
+			}
+			id, ok := e.(*ast.Ident)
+			if !ok {
+				return false
+			}
+			if info.ObjectOf(id) == param {
+				return true
+			}
+			if ds := defs[info.ObjectOf(id)]; len(ds) == 1 && ds[0] != nil {
+				return isParam(ds[0], depth+1)
+			}
+			return false
+		}
+		isFormat := func(e ast.Expr) bool {
+			call, isC := unparen(e).(*ast.CallExpr)
+			if !isC {
+				return false
+			}
+			fn, isF := callee(info, call).(*types.Func)
+			return isF && fn.Pkg() != nil && fn.Pkg().Path() == "strconv" && fn.Name() == "FormatFloat" && len(call.Args) == 4 && isParam(call.Args[0], 0)
+		}
 		ast.Inspect(fd.Body, func(nd ast.Node) bool {
 			switch x := nd.(type) {
 			case *ast.ReturnStmt:
 				n++
 				key := "FloatToString:return#" + itoa(n)
-				ok := false
+				var val ast.Expr
 				if len(x.Results) == 1 {
-					if call, isC := defs.resolve1(info, x.Results[0]).(*ast.CallExpr); isC {
-						if fn, isF := callee(info, call).(*types.Func); isF && fn.Pkg() != nil && fn.Pkg().Path() == "strconv" && fn.Name() == "FormatFloat" && len(call.Args) == 4 {
-							if id, isI := unparen(call.Args[0]).(*ast.Ident); isI && info.ObjectOf(id) == param {
-								ok = true
+					val = unparen(x.Results[0])
+				} else if len(x.Results) == 0 && result != nil {
+					val = result // naked return of the named result
+				}
+				ok := false
+				if val != nil {
+					if id, isI := val.(*ast.Ident); isI && len(defs[info.ObjectOf(id)]) > 0 {
+						// a local / the named result: every value it is ever given is the formatted parameter
+						ok = true
+						for _, d := range defs[info.ObjectOf(id)] {
+							if d == nil || !isFormat(d) {
+								ok = false
 							}
 						}
+					} else {
+						ok = isFormat(val)
 					}
 				}
 				c.Check(ok, "R13f", key, x.Pos(), "returns strconv.FormatFloat of the parameter itself (got %s) — any other formatter loses values: an integer fast path prints every whole float ≥ 2^63 as -9223372036854775808 and -0 as 0", c.src(x))
